@@ -541,6 +541,21 @@ Proof.
   - split; [simpl; auto|]. split; [congruence|]. rewrite Es. reflexivity.
 Qed.
 
+Lemma read_back_facts ba bo rb m c m' l :
+  good ba bo m -> exec (read_back rb) m = (c, m', l) ->
+  oks ba bo false m l /\ storep m' = storep m /\
+  (if rb then
+     match c with
+     | Some c' => (c' < nobj m')%nat /\ Some (val m' (HObj c')) = sval m'
+     | None => sval m' = None
+     end
+   else c = None).
+Proof.
+  intros Hg E. destruct rb; simpl in E.
+  - exact (data_copy_facts ba bo m c m' l Hg E).
+  - inversion E; subst. simpl. auto.
+Qed.
+
 Section StepProofs.
   Variable grow : nat -> nat -> nat.
 
@@ -548,16 +563,18 @@ Section StepProofs.
   Proof. intros H. split; auto. Qed.
 
   (* one whole update of the repaired code *)
-  Lemma exec_update_prog sch q remote persist new fp fd m r parg c m' l :
+  Lemma exec_update_prog sch q remote persist rb new fp fd m r parg c m' l :
     wf m ->
-    exec (update_prog grow sch q true remote persist new fp fd) m = (r, parg, c, m', l) ->
+    exec (update_prog grow sch q true remote persist rb new fp fd) m = (r, parg, c, m', l) ->
     oks (narr m) (nobj m) true m l /\ wf m' /\ mono m m' /\
     (parg < nobj m')%nat /\
     (forall d, r = UList d -> valid m' d) /\ (forall p, r = UObj p -> p = parg) /\
-    match c with
-    | Some c' => (c' < nobj m')%nat /\ Some (val m' (HObj c')) = sval m'
-    | None => sval m' = None
-    end /\
+    (if rb then
+       match c with
+       | Some c' => (c' < nobj m')%nat /\ Some (val m' (HObj c')) = sval m'
+       | None => sval m' = None
+       end
+     else c = None) /\
     (persist = false \/ succeeded r = false -> oks (narr m) (nobj m) false m l).
   Proof.
     intros Hwf E. set (ba := narr m) in *. set (bo := nobj m) in *.
@@ -579,8 +596,8 @@ Section StepProofs.
     assert (Hg3 : good ba bo m3) by (rewrite R3; eapply oks_good; eauto).
     assert (Hm3 : mono m2 m3) by (rewrite R3; apply replay_mono).
     rewrite exec_bind in E.
-    destruct (exec data_copy m3) as [[c4 m4] l4] eqn:E4.
-    destruct (data_copy_facts ba bo m3 c4 m4 l4 Hg3 E4) as [Ho4 [Hs4 Hc4]].
+    destruct (exec (read_back rb) m3) as [[c4 m4] l4] eqn:E4.
+    destruct (read_back_facts ba bo rb m3 c4 m4 l4 Hg3 E4) as [Ho4 [Hs4 Hc4]].
     pose proof (exec_replay _ _ _ _ _ _ E4) as R4.
     assert (Hg4 : good ba bo m4) by (rewrite R4; eapply oks_good; eauto).
     assert (Hm4 : mono m3 m4) by (rewrite R4; apply replay_mono).
@@ -645,21 +662,24 @@ Section StepProofs.
   Qed.
 
   (* what one update of the repaired code does to the store and to the application's objects *)
-  Lemma step_update s remote persist wire u :
+  Lemma step_update s remote persist rb wire u :
     Inv s -> fixed s = true ->
-    let '(s', out) := step grow s (Update remote persist wire u) in
+    let '(s', out) := step grow s (Update remote persist rb wire u) in
     Inv s' /\ fixed s' = true /\
     (exists c, res_of out = [c] /\ (persist = false \/ c = 1%N -> sval (cur s') = sval (cur s))) /\
-    store_of out = [sval (cur s')] /\ changed_of out = [] /\
+    store_of out = (if rb then [sval (cur s')] else []) /\ changed_of out = [] /\
     (length (handed s') = length (handed s) + outs_of out)%nat /\
-    cur s' = replay (step_effects grow s (Update remote persist wire u)) (cur s) /\
-    oks (narr (cur s)) (nobj (cur s)) true (cur s) (step_effects grow s (Update remote persist wire u)).
+    cur s' = replay (step_effects grow s (Update remote persist rb wire u)) (cur s) /\
+    oks (narr (cur s)) (nobj (cur s)) true (cur s) (step_effects grow s (Update remote persist rb wire u)).
   Proof.
     intros [Hwf Hh] Hfx. unfold step, step_effects. rewrite Hfx.
-    destruct (exec (update_prog grow (sch s) (qk s) true remote persist (u_new u) (u_fp u) (u_fd u)) (cur s))
+    destruct (exec (update_prog grow (sch s) (qk s) true remote persist rb (u_new u) (u_fp u) (u_fd u)) (cur s))
       as [[[[r parg] c] m'] l] eqn:E.
-    destruct (exec_update_prog _ _ _ _ _ _ _ _ _ _ _ _ _ Hwf E)
+    destruct (exec_update_prog _ _ _ _ _ _ _ _ _ _ _ _ _ _ Hwf E)
       as [Ho [Hwf' [Hm [Hparg [Hlist [Hobj [Hc Hns]]]]]]].
+    set (sn := if rb then snap_nil c else []).
+    assert (Hsn : res_of sn = [] /\ changed_of sn = [] /\ outs_of sn = 0%nat) by (unfold sn; destruct rb, c; auto).
+    destruct Hsn as [Hsn1 [Hsn2 Hsn3]].
     pose proof (exec_replay _ _ _ _ _ _ E) as R.
     pose proof (handed_frame _ _ _ _ Hwf Ho Hh) as Hh'. rewrite <- R in Hh'.
     rewrite (check_changed_same m' (handed s) 0) by (eapply Forall_impl; [|exact Hh']; intros hv [_ H]; exact H).
@@ -682,8 +702,8 @@ Section StepProofs.
         apply (closed_now_obj m' parg Hwf' Hparg).
       - destruct c as [c'|]; simpl; [|apply Forall_nil].
         apply Forall_cons; [|apply Forall_nil].
-        apply (closed_now_obj m' c' Hwf'). apply Hc. }
-    assert (Hstore : store_of outs ++ store_of (snap_nil c) = [sval m']).
+        apply (closed_now_obj m' c' Hwf'). destruct rb; [apply Hc | discriminate]. }
+    assert (Hstore : store_of outs ++ store_of sn = if rb then [sval m'] else []).
     { rewrite S5. unfold news. rewrite !flat_map_app.
       assert (Z1 : flat_map (fun kh : N * hand => if N.eqb (fst kh) 0 then [Some (val m' (snd kh))] else [])
                      (ret_news (returns_obj (fam s) wire) (returns_list (fam s) wire) r) = []).
@@ -692,16 +712,18 @@ Section StepProofs.
       assert (Z2 : flat_map (fun kh : N * hand => if N.eqb (fst kh) 0 then [Some (val m' (snd kh))] else [])
                      (if negb (N.eqb wire 0) && succeeded r then [(2%N, HObj parg)] else []) = []).
       { destruct (negb (N.eqb wire 0) && succeeded r); reflexivity. }
-      rewrite Z1, Z2. destruct c as [c'|]; simpl.
-      - destruct Hc as [_ Hc]. rewrite Hc. reflexivity.
+      rewrite Z1, Z2. unfold sn. destruct rb.
+      - destruct c as [c'|]; simpl.
+        + destruct Hc as [_ Hc]. rewrite Hc. reflexivity.
+        + rewrite Hc. reflexivity.
       - rewrite Hc. reflexivity. }
+    fold sn.
     split; [|split; [reflexivity|split; [|split; [|split; [|split; [|split]]]]]].
     - (* Inv *)
       split; [exact Hwf'|]. simpl. rewrite S1. apply Forall_app. split; [exact Hh'|].
       apply news_entries_ok. exact Hnews.
     - exists (code_of r). split.
-      + simpl. rewrite !res_of_app. rewrite S2.
-        assert (res_of (snap_nil c) = []) by (destruct c; reflexivity). rewrite H. reflexivity.
+      + simpl. rewrite !res_of_app. rewrite S2, Hsn1. reflexivity.
       + simpl. intros Hcase.
         assert (Hf : oks (narr (cur s)) (nobj (cur s)) false (cur s) l).
         { apply Hns. destruct Hcase as [H|H]; [left; exact H|right].
@@ -713,12 +735,10 @@ Section StepProofs.
         pose proof (oks_agree _ _ false l (cur s) (good_self _ Hwf) Hf) as Ha. rewrite <- R in Ha.
         destruct (frame_val _ _ _ _ _ Hcl Ha) as [F _]. rewrite F. reflexivity.
     - simpl. rewrite !store_of_app. simpl. rewrite app_nil_r. exact Hstore.
-    - simpl. rewrite !changed_of_app. rewrite S3.
-      assert (changed_of (snap_nil c) = []) by (destruct c; reflexivity). rewrite H. reflexivity.
+    - simpl. rewrite !changed_of_app. rewrite S3, Hsn2. reflexivity.
     - simpl. rewrite S1, app_length. unfold news_entries. rewrite map_length.
-      change (Res (code_of r) :: outs ++ snap_nil c ++ []) with ([Res (code_of r)] ++ outs ++ snap_nil c ++ []).
-      rewrite !outs_of_app. rewrite S4.
-      assert (outs_of (snap_nil c) = 0%nat) by (destruct c; reflexivity). rewrite H. unfold outs_of. simpl. lia.
+      change (Res (code_of r) :: outs ++ sn ++ []) with ([Res (code_of r)] ++ outs ++ sn ++ []).
+      rewrite !outs_of_app. rewrite S4, Hsn3. unfold outs_of. simpl. lia.
     - simpl. exact R.
     - exact Ho.
   Qed.
@@ -779,7 +799,7 @@ Section RunProofs.
 
   (* the monitor's memory agrees with the store *)
   Definition MI (s : st) (mm : mst) : Prop :=
-    m_n mm = length (handed s) /\ m_store mm = sval (cur s).
+    m_n mm = length (handed s) /\ (m_known mm = true -> m_store mm = sval (cur s)).
 
   Lemma run_accepted_gen : forall ops s mm,
     Inv s -> fixed s = true -> MI s mm -> repaired ops = true ->
@@ -789,39 +809,52 @@ Section RunProofs.
     simpl in Hrep. apply andb_true_iff in Hrep. destruct Hrep as [Ho Hrep].
     cbn [run]. destruct (step grow s o) as [s1 out] eqn:Es.
     destruct (run grow s1 r) as [s2 tr] eqn:Er. cbn [snd judge].
-    destruct o as [ty fm fx qq | remote persist wire u | | | z].
+    destruct o as [ty fm fx qq | remote persist rb wire u | | | z].
     - (* Init *)
       simpl in Es. inversion Es; subst s1 out. subst fx. simpl.
       match type of Er with run grow ?s0 r = _ =>
         assert (HI0 : Inv s0) by (split; [apply wf_mem0 | apply Forall_nil]);
-        specialize (IH s0 minit HI0 eq_refl (conj eq_refl eq_refl) Hrep) end.
+        specialize (IH s0 minit HI0 eq_refl (conj eq_refl (fun _ => eq_refl)) Hrep) end.
       rewrite Er in IH. exact IH.
     - (* Update *)
-      pose proof (step_update grow s remote persist wire u HI Hfx) as H. rewrite Es in H.
+      pose proof (step_update grow s remote persist rb wire u HI Hfx) as H. rewrite Es in H.
       destruct H as [HI1 [Hfx1 [[c [Hres Hkeep]] [Hstore [Hchg [Hlen _]]]]]].
       cbn [mon]. rewrite Hres, Hstore.
       unfold snap_verdict. rewrite Hchg. cbn [forallb app].
-      assert (Hv : (if negb persist && negb (eqb_store (sval (cur s1)) (m_store mm)) then [CL_NOPERSIST] else []) ++
-                   (if N.eqb c 1 && negb (eqb_store (sval (cur s1)) (m_store mm)) then [CL_FAILED] else []) = []).
-      { rewrite Hst. destruct persist.
-        - simpl. destruct (N.eqb c 1) eqn:Ec; [|reflexivity].
-          apply N.eqb_eq in Ec. rewrite (Hkeep (or_intror Ec)). rewrite eqb_store_refl. reflexivity.
-        - rewrite (Hkeep (or_introl eq_refl)). rewrite eqb_store_refl. simpl.
-          destruct (N.eqb c 1); reflexivity. }
-      rewrite Hv. cbn [strictly_accepted forallb fst].
-      specialize (IH s1 {| m_n := m_n mm + outs_of out; m_store := sval (cur s1) |} HI1 Hfx1).
-      rewrite Er in IH. apply IH; [|exact Hrep]. split; simpl; [lia|reflexivity].
+      destruct rb.
+      + (* read back *)
+        assert (Hbad : m_known mm && (negb persist || N.eqb c 1) && negb (eqb_store (sval (cur s1)) (m_store mm)) = false).
+        { destruct (m_known mm) eqn:Ek; [|reflexivity]. rewrite (Hst eq_refl).
+          destruct persist.
+          - simpl. destruct (N.eqb c 1) eqn:Ec; [|reflexivity].
+            apply N.eqb_eq in Ec. rewrite (Hkeep (or_intror Ec)). rewrite eqb_store_refl. reflexivity.
+          - rewrite (Hkeep (or_introl eq_refl)). rewrite eqb_store_refl. simpl. reflexivity. }
+        rewrite Hbad. cbn [andb app strictly_accepted forallb fst].
+        specialize (IH s1 {| m_n := m_n mm + outs_of out; m_store := sval (cur s1); m_known := true; m_np := false; m_fl := false |} HI1 Hfx1).
+        rewrite Er in IH. apply IH; [|exact Hrep]. split; simpl; [lia|reflexivity].
+      + (* not read back *)
+        cbn [strictly_accepted forallb fst app].
+        destruct (negb persist || N.eqb c 1) eqn:Enc.
+        * match goal with |- context [judge ?m1 _ tr] => specialize (IH s1 m1 HI1 Hfx1) end.
+          rewrite Er in IH. apply IH; [|exact Hrep]. split; simpl; [lia|].
+          intros Hk. rewrite (Hst Hk). symmetry. apply Hkeep.
+          apply orb_true_iff in Enc. destruct Enc as [E|E];
+            [left; destruct persist; [discriminate|reflexivity] | right; apply N.eqb_eq; exact E].
+        * match goal with |- context [judge ?m1 _ tr] => specialize (IH s1 m1 HI1 Hfx1) end.
+          rewrite Er in IH. apply IH; [|exact Hrep]. split; simpl; [lia|discriminate].
     - (* Snapshot *)
       pose proof (step_snapshot s HI) as H. rewrite Es in H.
-      destruct H as [HI1 [Hfx1 [Hres [Hstore [Hchg [Hlen _]]]]]].
+      destruct H as [HI1 [Hfx1 [Hres [Hstore [Hchg [Hlen [Hsv _]]]]]]].
       cbn [mon]. rewrite Hres, Hstore. unfold snap_verdict. rewrite Hchg. cbn [forallb app].
-      cbn [strictly_accepted forallb fst].
-      specialize (IH s1 {| m_n := m_n mm + outs_of out; m_store := sval (cur s1) |} HI1).
+      assert (Hbad : m_known mm && negb (eqb_store (sval (cur s1)) (m_store mm)) = false).
+      { destruct (m_known mm) eqn:Ek; [|reflexivity]. rewrite (Hst eq_refl), Hsv, eqb_store_refl. reflexivity. }
+      rewrite Hbad. cbn [andb app strictly_accepted forallb fst].
+      specialize (IH s1 {| m_n := m_n mm + outs_of out; m_store := sval (cur s1); m_known := true; m_np := false; m_fl := false |} HI1).
       rewrite Er in IH. apply IH; [congruence| |exact Hrep]. split; simpl; [lia|reflexivity].
     - (* Keep *)
       simpl in Es. inversion Es; subst s1 out. cbn [mon]. cbn.
       match type of Er with run grow ?s0 r = _ =>
-        specialize (IH s0 {| m_n := S (m_n mm); m_store := m_store mm |} (Inv_keep s HI) Hfx) end.
+        specialize (IH s0 {| m_n := S (m_n mm); m_store := m_store mm; m_known := m_known mm; m_np := m_np mm; m_fl := m_fl mm |} (Inv_keep s HI) Hfx) end.
       rewrite Er in IH. apply IH; [|exact Hrep]. split; simpl; [rewrite app_length; simpl; lia | exact Hst].
     - (* Ext *)
       simpl in Es. inversion Es; subst s1 out. cbn [mon]. cbn.
@@ -838,7 +871,7 @@ Section RunProofs.
     accepted (judge minit sinit (snd (run grow init ops))) = true.
   Proof.
     intros ops H. apply strictly_accepted_accepted.
-    apply run_accepted_gen; auto using Inv_init. split; reflexivity.
+    apply run_accepted_gen; auto using Inv_init. split; [reflexivity | intros _; reflexivity].
   Qed.
 
   (* ---- the explicit statements ---- *)
@@ -851,9 +884,9 @@ Section RunProofs.
     cbn [run]. destruct (step grow s o) as [s1 out] eqn:Es.
     destruct (run grow s1 r) as [s2 tr] eqn:Er. cbn [fst].
     assert (H1 : Inv s1 /\ fixed s1 = true).
-    { destruct o as [ty fm fx qq | remote persist wire u | | | z].
+    { destruct o as [ty fm fx qq | remote persist rb wire u | | | z].
       - simpl in Es. inversion Es; subst s1 out. split; [split; [apply wf_mem0|apply Forall_nil]|exact Ho].
-      - pose proof (step_update grow s remote persist wire u HI Hfx) as H. rewrite Es in H. tauto.
+      - pose proof (step_update grow s remote persist rb wire u HI Hfx) as H. rewrite Es in H. tauto.
       - pose proof (step_snapshot s HI) as H. rewrite Es in H. destruct H as [? [? _]]. split; congruence.
       - simpl in Es. inversion Es; subst s1 out. split; [apply Inv_keep; exact HI | exact Hfx].
       - simpl in Es. inversion Es; subst s1 out. split; assumption. }
@@ -873,11 +906,11 @@ Section RunProofs.
   Lemma step_handed_prefix s o : Inv s -> fixed s = true -> (match o with Init _ _ _ _ => False | _ => True end) ->
     exists more, handed (fst (step grow s o)) = handed s ++ more.
   Proof.
-    intros [Hwf Hh] Hfx Hno. destruct o as [ | remote persist wire u | | | z]; [destruct Hno| | | |].
+    intros [Hwf Hh] Hfx Hno. destruct o as [ | remote persist rb wire u | | | z]; [destruct Hno| | | |].
     - unfold step. rewrite Hfx.
-      destruct (exec (update_prog grow (sch s) (qk s) true remote persist (u_new u) (u_fp u) (u_fd u)) (cur s))
+      destruct (exec (update_prog grow (sch s) (qk s) true remote persist rb (u_new u) (u_fp u) (u_fd u)) (cur s))
         as [[[[r parg] c] m'] l] eqn:E.
-      destruct (exec_update_prog _ _ _ _ _ _ _ _ _ _ _ _ _ _ Hwf E) as [Ho _].
+      destruct (exec_update_prog _ _ _ _ _ _ _ _ _ _ _ _ _ _ _ Hwf E) as [Ho _].
       pose proof (exec_replay _ _ _ _ _ _ E) as R.
       pose proof (handed_frame _ _ _ _ Hwf Ho Hh) as Hh'. rewrite <- R in Hh'.
       rewrite (check_changed_same m' (handed s) 0) by (eapply Forall_impl; [|exact Hh']; intros hv [_ H]; exact H).
@@ -943,15 +976,15 @@ Section RunProofs.
   Qed.
 
   (* an update without persistence, or reported as failed, leaves the stored data as it was *)
-  Theorem update_keeps_store s remote persist wire u :
+  Theorem update_keeps_store s remote persist rb wire u :
     Inv s -> fixed s = true ->
-    forall c, In (Res c) (snd (step grow s (Update remote persist wire u))) ->
+    forall c, In (Res c) (snd (step grow s (Update remote persist rb wire u))) ->
     persist = false \/ c = 1%N ->
-    sval (cur (fst (step grow s (Update remote persist wire u)))) = sval (cur s).
+    sval (cur (fst (step grow s (Update remote persist rb wire u)))) = sval (cur s).
   Proof.
     intros HI Hfx c Hin Hcase.
-    pose proof (step_update grow s remote persist wire u HI Hfx) as H.
-    destruct (step grow s (Update remote persist wire u)) as [s1 out]. simpl in *.
+    pose proof (step_update grow s remote persist rb wire u HI Hfx) as H.
+    destruct (step grow s (Update remote persist rb wire u)) as [s1 out]. simpl in *.
     destruct H as [_ [_ [[c' [Hres Hkeep]] _]]].
     assert (c = c').
     { assert (Hi : In c (res_of out)) by (unfold res_of; apply in_flat_map; exists (Res c); simpl; auto).
@@ -967,10 +1000,10 @@ Section RunProofs.
   Proof.
     intros HI Hfx k. pose proof HI as [Hwf Hh].
     assert (Hok : oks (narr (cur s)) (nobj (cur s)) true (cur s) (step_effects grow s o)).
-    { destruct o as [ | remote persist wire u | | | z].
+    { destruct o as [ | remote persist rb wire u | | | z].
       - simpl. exact I.
-      - pose proof (step_update grow s remote persist wire u HI Hfx) as H.
-        destruct (step grow s (Update remote persist wire u)) as [s1 out]. apply H.
+      - pose proof (step_update grow s remote persist rb wire u HI Hfx) as H.
+        destruct (step grow s (Update remote persist rb wire u)) as [s1 out]. apply H.
       - pose proof (step_snapshot s HI) as H.
         destruct (step grow s Snapshot) as [s1 out]. apply oks_weaken. apply H.
       - simpl. exact I.
@@ -1005,10 +1038,10 @@ Section RunProofs.
   Proof.
     intros HI Hfx e hv He Hhv. pose proof HI as [Hwf Hh].
     assert (Hok : oks (narr (cur s)) (nobj (cur s)) true (cur s) (step_effects grow s o)).
-    { destruct o as [ | remote persist wire u | | | z].
+    { destruct o as [ | remote persist rb wire u | | | z].
       - simpl. exact I.
-      - pose proof (step_update grow s remote persist wire u HI Hfx) as H.
-        destruct (step grow s (Update remote persist wire u)) as [s1 out]. apply H.
+      - pose proof (step_update grow s remote persist rb wire u HI Hfx) as H.
+        destruct (step grow s (Update remote persist rb wire u)) as [s1 out]. apply H.
       - pose proof (step_snapshot s HI) as H.
         destruct (step grow s Snapshot) as [s1 out]. apply oks_weaken. apply H.
       - simpl. exact I.
